@@ -16,7 +16,11 @@
       "no patch rectangle blocks the segment between the centroids";
     - [room_patches_are_rects]: the hypothesis "the patch surfaces are well-formed axis-aligned
       rectangles" is DERIVED from the tiling theorems for rooms whose walls satisfy the C08
-      predicate [wall_ok] and carry an axis normal.
+      predicate [wall_ok] and carry an axis normal;
+    - [rect_own_centroid], [room_behind_hidden], [room_coplanar_hidden]: the clauses of [gen_pos]
+      about a patch's own rectangle hold for the centroid the model computes, hence -- with no
+      hypothesis on the other surfaces -- a patch never exchanges energy with a patch behind it
+      or in its own plane.
 
     Besides the three cases of [Proofs/PipRectSurface.v] (surface off both endpoints / one endpoint
     in the surface / coplanar with one endpoint in the surface) two more occur in every shoebox room
@@ -555,3 +559,266 @@ Section ShoeboxRoom.
     exact (room_visibility_geometric rm rs m He He1 Heta Hm Hrs i j).
   Qed.
 End ShoeboxRoom.
+
+(** ** 5. the general-position clauses that concern a patch's OWN rectangle are theorems:
+    the centroid the model computes ([np.sum(points)/4]) lies exactly in the plane of its patch,
+    strictly inside the rectangle, and farther than [m] from its edge lines whenever both sides of
+    the cell exceed [2 m].  Consequences that need no hypothesis on the other surfaces: a patch
+    never exchanges energy with a patch whose centroid is behind it, nor with a patch whose centroid
+    lies in its own plane (same wall). *)
+Section OwnCentroid.
+  Context {T : Type} {O : Ops T} {RL : RingLaws T} {OL : OrderLaws T} {FL : FieldLaws T}
+          {FlL : FloorLaws T} {SL : SqrtLaws T}.
+  Add Ring TRingFullVis5 : (@ring_th T O RL).
+  Local Notation vec := (@vec T).
+  Local Open Scope T_scope.
+
+  Let K : T := tofnat 4.
+  Lemma K_eq : K = ((1 + 1) + 1) + 1.
+  Proof. unfold K. rewrite !tofnat_S, tofnat_0. ring. Qed.
+  Lemma K_pos : 0 < K.
+  Proof. unfold K. apply tofnat_pos. apply Nat.lt_0_succ. Qed.
+  Lemma K_neq : K <> 0.
+  Proof. apply tpos_neq, K_pos. Qed.
+
+  Lemma pos_double (d : T) : 0 < d -> 0 < d + d.
+  Proof.
+    intros H. apply (tlt_trans _ d); [exact H|].
+    replace d with (d + 0) at 1 by ring. now apply tadd_lt_mono_l.
+  Qed.
+
+  (** [np.sum] of four numbers starting from 0, divided by 4 *)
+  Definition avg4 (a b c d : T) : T := ((((0 + a) + b) + c) + d) / K.
+  Lemma avg4_mul (a b c d : T) : avg4 a b c d * K = (((0 + a) + b) + c) + d.
+  Proof. unfold avg4. apply tdiv_mul, K_neq. Qed.
+  Lemma avg4_const (c : T) : avg4 c c c c = c.
+  Proof.
+    apply (tmul_eq_cancel_pos_r _ _ K K_pos). rewrite avg4_mul, K_eq. ring.
+  Qed.
+
+  Lemma centroid_emb4 (ax : axis) (c u1 v1 u2 v2 u3 v3 u4 v4 : T) :
+    centroid [emb ax c u1 v1; emb ax c u2 v2; emb ax c u3 v3; emb ax c u4 v4]
+    = emb ax (avg4 c c c c) (avg4 u1 u2 u3 u4) (avg4 v1 v2 v3 v4).
+  Proof. destruct ax; reflexivity. Qed.
+
+  Lemma ucoord_emb (ax : axis) (c u v : T) : ucoord ax (emb ax c u v) = u.
+  Proof. destruct ax; reflexivity. Qed.
+  Lemma vcoord_emb (ax : axis) (c u v : T) : vcoord ax (emb ax c u v) = v.
+  Proof. destruct ax; reflexivity. Qed.
+
+  Lemma half_lt (x y : T) : x + x < y + y -> x < y.
+  Proof.
+    intros H. apply tlt_iff. intros L. apply (tle_not_lt _ _ (tadd_le_mono2 _ _ _ _ L L)). exact H.
+  Qed.
+
+  (** the midpoint h of a and b (given by 4 h = 2 a + 2 b): strictly between them, and farther
+      than m from both when 2 m < |b - a| *)
+  Lemma mid_facts (a b h m : T) :
+    a <> b -> h * K = (a + b) + (b + a) ->
+    between a b h /\ (m + m < tabs (b - a) -> m < tabs (h - a) /\ m < tabs (h - b)).
+  Proof.
+    intros Hab Hh.
+    assert (H2 : 0 < 1 + 1) by (apply pos_double, tone_pos).
+    assert (Hx : (h - a) + (h - a) = b - a).
+    { apply (tmul_eq_cancel_pos_r _ _ (1 + 1) H2).
+      transitivity (h * K - a * K); [rewrite K_eq; ring|rewrite Hh, K_eq; ring]. }
+    assert (Hy : (b - h) + (b - h) = b - a).
+    { transitivity ((b - a) + (b - a) - ((h - a) + (h - a))); [ring|rewrite Hx; ring]. }
+    destruct (tle_total a b) as [L|L]; destruct (tle_lt_or_eq _ _ L) as [Lt|E];
+      try (exfalso; apply Hab; congruence).
+    - (* a < b *)
+      assert (Hd : 0 < b - a) by (apply (proj1 (tlt_sub _ _)); exact Lt).
+      assert (A : a < h).
+      { apply (proj2 (tlt_sub _ _)). apply half_lt. rewrite Hx. replace (0 + 0) with (0 : T) by ring. exact Hd. }
+      assert (B : h < b).
+      { apply (proj2 (tlt_sub _ _)). apply half_lt. rewrite Hy. replace (0 + 0) with (0 : T) by ring. exact Hd. }
+      split; [left; split; assumption|].
+      rewrite (tabs_sub_ge b a L), (tabs_sub_ge h a (tlt_le _ _ A)), (tabs_sub_le h b (tlt_le _ _ B)).
+      intros Hm2. split; apply half_lt; [rewrite Hx|rewrite Hy]; exact Hm2.
+    - (* b < a *)
+      assert (Hd : 0 < a - b) by (apply (proj1 (tlt_sub _ _)); exact Lt).
+      assert (Hx' : (a - h) + (a - h) = a - b).
+      { transitivity (- ((h - a) + (h - a))); [ring|rewrite Hx; ring]. }
+      assert (Hy' : (h - b) + (h - b) = a - b).
+      { transitivity (- ((b - h) + (b - h))); [ring|rewrite Hy; ring]. }
+      assert (A : h < a).
+      { apply (proj2 (tlt_sub _ _)). apply half_lt. rewrite Hx'. replace (0 + 0) with (0 : T) by ring. exact Hd. }
+      assert (B : b < h).
+      { apply (proj2 (tlt_sub _ _)). apply half_lt. rewrite Hy'. replace (0 + 0) with (0 : T) by ring. exact Hd. }
+      split; [right; split; assumption|].
+      rewrite (tabs_sub_le b a L), (tabs_sub_le h a (tlt_le _ _ A)), (tabs_sub_ge h b (tlt_le _ _ B)).
+      intros Hm2. split; apply half_lt; [rewrite Hx'|rewrite Hy']; exact Hm2.
+  Qed.
+End OwnCentroid.
+
+Section OwnCentroidRect.
+  Context {T : Type} {O : Ops T} {RL : RingLaws T} {OL : OrderLaws T} {FL : FieldLaws T}
+          {FlL : FloorLaws T} {SL : SqrtLaws T}.
+  Add Ring TRingFullVis6 : (@ring_th T O RL).
+  Local Notation vec := (@vec T).
+  Local Open Scope T_scope.
+
+  Lemma on_plane_emb (r : rect) (u v : T) : on_plane (rect_surface r) (emb (r_axis r) (r_c r) u v).
+  Proof.
+    destruct r as [ax up c ua ub va vb vf].
+    unfold on_plane, side_of, s_p0, s_pts, s_nrm, rect_surface, rect_pts, rect_nrm, axis_normal, nthv.
+    cbn [r_axis r_up r_c r_ua r_ub r_va r_vb r_vfirst fst snd].
+    destruct vf; cbn [nth]; destruct ax; unfold emb, vdot, vsub, mkv, vx, vy, vz; cbn [fst snd]; ring.
+  Qed.
+
+  (** the centroid of an axis-aligned rectangle, in its own coordinates *)
+  Definition rect_mid_u (r : rect) : T :=
+    if r_vfirst r then avg4 (r_ua r) (r_ua r) (r_ub r) (r_ub r) else avg4 (r_ua r) (r_ub r) (r_ub r) (r_ua r).
+  Definition rect_mid_v (r : rect) : T :=
+    if r_vfirst r then avg4 (r_va r) (r_vb r) (r_vb r) (r_va r) else avg4 (r_va r) (r_va r) (r_vb r) (r_vb r).
+
+  Lemma rect_centroid (r : rect) :
+    centroid (rect_pts r) = emb (r_axis r) (r_c r) (rect_mid_u r) (rect_mid_v r).
+  Proof.
+    unfold rect_pts, rect_mid_u, rect_mid_v. destruct (r_vfirst r); rewrite centroid_emb4, avg4_const; reflexivity.
+  Qed.
+
+  Lemma rect_mid_u_mul (r : rect) : rect_mid_u r * tofnat 4 = (r_ua r + r_ub r) + (r_ub r + r_ua r).
+  Proof. unfold rect_mid_u. destruct (r_vfirst r); rewrite avg4_mul; ring. Qed.
+  Lemma rect_mid_v_mul (r : rect) : rect_mid_v r * tofnat 4 = (r_va r + r_vb r) + (r_vb r + r_va r).
+  Proof. unfold rect_mid_v. destruct (r_vfirst r); rewrite avg4_mul; ring. Qed.
+
+  (** the own-surface clauses of [gen_pos] *)
+  Theorem rect_own_centroid (m : T) (r : rect) :
+    rect_wf r ->
+    m + m < tabs (r_ub r - r_ua r) -> m + m < tabs (r_vb r - r_va r) ->
+    pt_on m r (centroid (rect_pts r)) /\ in_rect r (centroid (rect_pts r)).
+  Proof.
+    intros [Nu Nv] Mu Mv. rewrite rect_centroid.
+    destruct (mid_facts (r_ua r) (r_ub r) (rect_mid_u r) m Nu (rect_mid_u_mul r)) as [Bu Ou].
+    destruct (mid_facts (r_va r) (r_vb r) (rect_mid_v r) m Nv (rect_mid_v_mul r)) as [Bv Ov].
+    destruct (Ou Mu) as [Ou1 Ou2]. destruct (Ov Mv) as [Ov1 Ov2].
+    unfold pt_on, off_bands, in_rect. rewrite ucoord_emb, vcoord_emb.
+    split; [split; [apply on_plane_emb|]|]; tauto.
+  Qed.
+End OwnCentroidRect.
+
+(** the centroids of the composed model are the centroids of the patch rectangles *)
+Section RoomOwnSurface.
+  Context {T : Type} {O : Ops T} {RL : RingLaws T} {OL : OrderLaws T} {FL : FieldLaws T}
+          {FlL : FloorLaws T} {SL : SqrtLaws T}.
+  Local Notation vec := (@vec T).
+
+  Definition drect : @rect T := mkrect AxZ true 0%T 0%T 0%T 0%T 0%T false.
+
+  Lemma room_surfs_fst (rm : @room T) : map fst (rm_patch_surfs rm) = rm_patch_pts rm.
+  Proof.
+    unfold rm_patch_surfs.
+    assert (Hlen : length (rm_patch_pts rm) = length (pr_normals (rm_processed rm))).
+    { unfold rm_patch_pts, rm_processed. rewrite map_length, process_points_length, process_normals_length.
+      reflexivity. }
+    revert Hlen. generalize (rm_patch_pts rm) as l1, (pr_normals (rm_processed rm)) as l2.
+    induction l1 as [|a l1 IH]; intros [|b l2] H; cbn [length] in H; try discriminate; [reflexivity|].
+    cbn [combine map fst]. f_equal. apply IH. now injection H.
+  Qed.
+
+  Variable rm : @room T.
+  Variable rs : list (@rect T).
+  Hypothesis Hrs : rects_of (rm_patch_surfs rm) rs.
+
+  Lemma room_pts_rects : rm_patch_pts rm = map rect_pts rs.
+  Proof.
+    rewrite <- room_surfs_fst. destruct (rects_of_map _ _ Hrs) as [-> _].
+    rewrite map_map. reflexivity.
+  Qed.
+
+  Lemma room_rects_length : length rs = rm_np rm.
+  Proof. unfold rm_np. rewrite room_pts_rects. now rewrite map_length. Qed.
+
+  Lemma room_center_is_rect_centroid (i : nat) :
+    i < rm_np rm -> nthv (rm_centers rm) i = centroid (rect_pts (nth i rs drect)).
+  Proof.
+    intros Hi. unfold rm_centers, nthv. rewrite room_pts_rects, map_map.
+    rewrite nth_indep with (d' := centroid (rect_pts drect))
+      by (rewrite map_length, room_rects_length; exact Hi).
+    apply (map_nth (fun r => centroid (rect_pts r))).
+  Qed.
+
+  Lemma room_rect_in (i : nat) :
+    i < rm_np rm -> In (rect_surface (nth i rs drect)) (rm_patch_surfs rm) /\ rect_wf (nth i rs drect).
+  Proof.
+    intros Hi. destruct (rects_of_map _ _ Hrs) as [Hmap Hwf].
+    assert (Hin : In (nth i rs drect) rs) by (apply nth_In; rewrite room_rects_length; exact Hi).
+    split; [rewrite Hmap; now apply in_map|]. rewrite Forall_forall in Hwf. now apply Hwf.
+  Qed.
+
+  Variable m : T.
+  Hypothesis He : (0 <= rm_eps rm)%T.
+  Hypothesis He1 : (rm_eps rm < 1)%T.
+  Hypothesis Heta : (0 < rm_eta rm)%T.
+  Hypothesis Hm : (rm_eta rm <= m + m)%T.
+
+  (** cells larger than twice the margin *)
+  Definition cell_margin (r : @rect T) : Prop :=
+    (m + m < tabs (r_ub r - r_ua r))%T /\ (m + m < tabs (r_vb r - r_va r))%T.
+
+  Lemma vis_false_of_surface (i j : nat) (s : @surface T) :
+    i < j -> j < rm_np rm -> In s (rm_patch_surfs rm) ->
+    basic_visibility (rm_eps rm) (rm_eta rm) (nthv (rm_centers rm) i) (nthv (rm_centers rm) j) s = false ->
+    vis_sym (room_scene rm) i j = false.
+  Proof.
+    intros Hij Hj Hin Hb. rewrite (room_pairs_are_line_of_sight rm i j Hij Hj). unfold visible_all.
+    destruct (forallb _ (rm_patch_surfs rm)) eqn:E; [|reflexivity].
+    rewrite forallb_forall in E. rewrite (E s Hin) in Hb. discriminate.
+  Qed.
+
+  (** a patch whose centroid is BEHIND patch k (k one of the two) is hidden from it: the own
+      surface of k blocks -- no hypothesis on any other surface *)
+  Theorem room_behind_hidden (i j : nat) :
+    i < j -> j < rm_np rm ->
+    let ci := nthv (rm_centers rm) i in
+    let cj := nthv (rm_centers rm) j in
+    let ri := nth i rs drect in
+    let rj := nth j rs drect in
+    (cell_margin ri -> (rm_eta rm < tabs (side_of (rect_surface ri) cj))%T ->
+     (vdot (s_nrm (rect_surface ri)) (vsub cj ci) < 0)%T -> vis_sym (room_scene rm) i j = false) /\
+    (cell_margin rj -> (rm_eta rm < tabs (side_of (rect_surface rj) ci))%T ->
+     (vdot (s_nrm (rect_surface rj)) (vsub ci cj) < 0)%T -> vis_sym (room_scene rm) i j = false).
+  Proof.
+    intros Hij Hj. cbv zeta.
+    assert (Hi : i < rm_np rm) by lia.
+    assert (Heta0 : (0 <= rm_eta rm)%T) by now apply tlt_le.
+    split; intros [Mu Mv] Hoff Hbehind.
+    - destruct (room_rect_in i Hi) as [Hin Hwf].
+      destruct (rect_own_centroid m _ Hwf Mu Mv) as [[Hon Hob] Hir].
+      rewrite <- (room_center_is_rect_centroid i Hi) in Hon, Hob, Hir.
+      apply (vis_false_of_surface i j _ Hij Hj Hin).
+      apply (proj1 (segment_logic_rect_endpoint _ _ m _ _ _ He He1 Heta0 Hm Hwf
+                      (on_plane_gate _ _ _ Heta0 Hon) Hob Hir Hoff)).
+      exact Hbehind.
+    - destruct (room_rect_in j Hj) as [Hin Hwf].
+      destruct (rect_own_centroid m _ Hwf Mu Mv) as [[Hon Hob] Hir].
+      rewrite <- (room_center_is_rect_centroid j Hj) in Hon, Hob, Hir.
+      apply (vis_false_of_surface i j _ Hij Hj Hin).
+      apply (proj2 (segment_logic_rect_endpoint _ _ m _ _ _ He He1 Heta0 Hm Hwf
+                      (on_plane_gate _ _ _ Heta0 Hon) Hob Hir Hoff)).
+      exact Hbehind.
+  Qed.
+
+  (** two patches of the same wall never exchange energy: if the centroid of j lies in the plane of
+      patch i (off its edge bands), the own surface of i hides it (coplanar branch) *)
+  Theorem room_coplanar_hidden (i j : nat) :
+    i < j -> j < rm_np rm ->
+    let cj := nthv (rm_centers rm) j in
+    let ri := nth i rs drect in
+    cell_margin ri -> on_plane (rect_surface ri) cj -> off_bands m ri cj ->
+    vis_sym (room_scene rm) i j = false.
+  Proof.
+    intros Hij Hj. cbv zeta. intros [Mu Mv] Honj Hobj.
+    assert (Hi : i < rm_np rm) by lia.
+    assert (Heta0 : (0 <= rm_eta rm)%T) by now apply tlt_le.
+    destruct (room_rect_in i Hi) as [Hin Hwf].
+    destruct (rect_own_centroid m _ Hwf Mu Mv) as [[Hon Hob] Hir].
+    rewrite <- (room_center_is_rect_centroid i Hi) in Hon, Hob, Hir.
+    apply (vis_false_of_surface i j _ Hij Hj Hin).
+    apply (segment_logic_rect_coplanar _ _ m _ _ _ He He1 Heta0 Hm Hwf); try assumption.
+    - unfold on_plane in Hon. rewrite Hon, tabs_zero. exact Heta.
+    - unfold on_plane in Honj. rewrite Honj, tabs_zero. exact Heta.
+    - now left.
+  Qed.
+End RoomOwnSurface.
